@@ -8,6 +8,7 @@ import (
 	"encoding/json"
 	"flag"
 	"fmt"
+	"go/types"
 	"os"
 	"os/exec"
 	"path/filepath"
@@ -281,17 +282,21 @@ func writeReplay(path, prop string, o *Obligation) (bool, string) {
 		}
 		model := parseModel(o.Res.Model)
 		rep["model"] = model
+		if in := concreteInputs(o, model, filepath.Dir(path)); in != nil {
+			rep["inputs"] = in
+		}
 		rep["model_raw"] = firstLines(o.Res.Model, 60)
 		detail = "solver model written; no replay driver for " + o.Func
-		if drv := replayDriverFor(o.Func); drv != "" {
-			ok, out := runReplayDriver(drv, path, rep)
-			rep["replay_output"] = out
-			reproduced = ok
-			if ok {
-				detail = "counterexample replayed on the real code: " + lastLine(out)
-			} else {
-				detail = "counterexample did not reproduce on the real code: " + lastLine(out)
-			}
+	}
+	if drv := replayDriverFor(o.Func); drv != "" {
+		// the driver replays the model's input when there is one and always runs its bounded search on the real code
+		ok, out := runReplayDriver(drv, path, rep)
+		rep["replay_output"] = out
+		reproduced = ok
+		if ok {
+			detail = "failing input found by replay on the real code: " + lastLine(out)
+		} else {
+			detail = "replay on the real code found no failing input: " + lastLine(out)
 		}
 	}
 	rep["reproduced"] = reproduced
@@ -301,7 +306,7 @@ func writeReplay(path, prop string, o *Obligation) (bool, string) {
 }
 
 func lastLine(s string) string {
-	ls := strings.Split(strings.TrimSpace(s), "\n")
+	ls := strings.Split(strings.ReplaceAll(strings.TrimSpace(s), " / ", "\n"), "\n")
 	for i := len(ls) - 1; i >= 0; i-- {
 		if strings.Contains(ls[i], "REPLAY") {
 			return strings.TrimSpace(ls[i])
@@ -312,7 +317,17 @@ func lastLine(s string) string {
 
 // replayDriverFor finds /verif/replay/drivers/<name>_test.go for a function key.
 func replayDriverFor(key string) string {
-	name := sanitize(strings.NewReplacer("mqtt.", "", "mqtttest.", "mt_", "(*", "", ")", "", "$", "_").Replace(key))
+	name := key
+	prefix := ""
+	if strings.HasPrefix(name, "mqtttest.") {
+		prefix = "mt_"
+	}
+	if i := strings.LastIndex(name, ")."); i >= 0 {
+		name = name[i+2:]
+	} else if i := strings.Index(name, "."); i >= 0 {
+		name = name[i+1:]
+	}
+	name = prefix + sanitize(strings.ReplaceAll(name, "$", "_"))
 	p := filepath.Join(verifDir, "replay", "drivers", name+"_test.go")
 	if _, err := os.Stat(p); err == nil {
 		return p
@@ -321,7 +336,22 @@ func replayDriverFor(key string) string {
 }
 
 // runReplayDriver injects the driver into the package with -overlay and runs it.
+var driverCache = map[string][2]any{}
+
 func runReplayDriver(driver, replayPath string, rep map[string]any) (bool, string) {
+	// one run per driver and model input within a check (several obligations of a function often fail together)
+	ck := driver + "|" + fmt.Sprint(rep["inputs"])
+	if c, ok := driverCache[ck]; ok {
+		data, _ := json.MarshalIndent(rep, "", " ")
+		writeFileMk(replayPath, string(data))
+		return c[0].(bool), c[1].(string)
+	}
+	ok, out := runReplayDriverOnce(driver, replayPath, rep)
+	driverCache[ck] = [2]any{ok, out}
+	return ok, out
+}
+
+func runReplayDriverOnce(driver, replayPath string, rep map[string]any) (bool, string) {
 	data, _ := json.MarshalIndent(rep, "", " ")
 	writeFileMk(replayPath, string(data))
 	pkgDir := repoDir
@@ -333,7 +363,7 @@ func runReplayDriver(driver, replayPath string, rep map[string]any) (bool, strin
 	ovData, _ := json.Marshal(ov)
 	ovPath := replayPath + ".overlay.json"
 	os.WriteFile(ovPath, ovData, 0o644)
-	cmd := exec.Command("go", "test", "-overlay", ovPath, "-vet=off", "-count=1", "-timeout", "60s", "-run", "^TestGovcReplay$", ".")
+	cmd := exec.Command("go", "test", "-overlay", ovPath, "-vet=off", "-count=1", "-timeout", "120s", "-v", "-run", "^TestGovcReplay$", ".")
 	cmd.Dir = pkgDir
 	cmd.Env = append(os.Environ(), "GOVC_REPLAY="+replayPath, "GOFLAGS=-mod=mod", "GOPROXY=off", "GOSUMDB=off", "GOTOOLCHAIN=local")
 	out, _ := cmd.CombinedOutput()
@@ -420,4 +450,143 @@ func runLemmas(obls []*Obligation, d *Discharger) {
 	for _, o := range obls {
 		o.Res = Solve(d.Dir, sanitize(o.Name), o.smtText, d.Timeout, d.All)
 	}
+}
+
+// concreteInputs turns the solver model into concrete values of the function's
+// parameters: integers directly, strings / byte and integer slices by a second
+// query that asks the same solver model for their elements (bounded: at most
+// 4096 elements per value; longer values keep their length and are zero-filled
+// by the drivers).
+func concreteInputs(o *Obligation, model map[string]string, dir string) map[string]any {
+	x := o.Exec
+	if x == nil || x.Fn == nil {
+		return nil
+	}
+	out := map[string]any{}
+	type ask struct {
+		name string
+		n    int
+		term func(k int) string
+	}
+	var asks []ask
+	geti := func(name string) (int64, bool) {
+		v, ok := model[name]
+		if !ok {
+			return 0, false
+		}
+		n, err := strconv.ParseInt(v, 10, 64)
+		return n, err == nil
+	}
+	for i, p := range x.Fn.Params {
+		base := fmt.Sprintf("in.%s!%d", p.Name(), i+1)
+		// find the actual index used by FreshValue (prefix count)
+		for cand := 1; cand < 40; cand++ {
+			b := fmt.Sprintf("in.%s!%d", p.Name(), cand)
+			found := false
+			for k := range model {
+				if k == b || strings.HasPrefix(k, b+".") {
+					found = true
+				}
+			}
+			if found {
+				base = b
+				break
+			}
+		}
+		switch t := p.Type().Underlying().(type) {
+		case *types.Basic:
+			if t.Info()&types.IsString != 0 {
+				ln, ok := geti(base + ".len")
+				if !ok {
+					continue
+				}
+				out[p.Name()+".len"] = ln
+				if ln <= 4096 {
+					b := base
+					asks = append(asks, ask{p.Name(), int(ln), func(k int) string {
+						return fmt.Sprintf("(select %s (+ %s %d))", symName(b+".arr"), symName(b+".off"), k)
+					}})
+				}
+			} else if v, ok := model[base]; ok {
+				out[p.Name()] = v
+			}
+		case *types.Slice:
+			ln, ok := geti(base + ".len")
+			if !ok {
+				continue
+			}
+			out[p.Name()+".len"] = ln
+			if ref, ok := geti(base + ".ref"); ok {
+				out[p.Name()+".nil"] = ref == 0
+			}
+			et := t.Elem()
+			if len(Flatten(et)) == 1 && ln <= 4096 {
+				b := base
+				reg := symName(elemsBase(et))
+				asks = append(asks, ask{p.Name(), int(ln), func(k int) string {
+					return fmt.Sprintf("(select (select %s %s) (+ %s %d))", reg, symName(b+".ref"), symName(b+".off"), k)
+				}})
+			}
+		default:
+			if v, ok := model[base]; ok {
+				out[p.Name()] = v
+			}
+		}
+	}
+	if len(asks) == 0 {
+		return out
+	}
+	// second query
+	txt := o.smtText
+	if i := strings.LastIndex(txt, "(get-value"); i >= 0 {
+		txt = txt[:i]
+	}
+	var b strings.Builder
+	b.WriteString(txt)
+	b.WriteString("(get-value (")
+	total := 0
+	for _, a := range asks {
+		for k := 0; k < a.n; k++ {
+			b.WriteString(a.term(k) + " ")
+			total++
+		}
+	}
+	b.WriteString("))\n")
+	if total == 0 {
+		for _, a := range asks {
+			out[a.name] = []int64{}
+		}
+		return out
+	}
+	file := filepath.Join(dir, "smt", "replay-elems.smt2")
+	os.MkdirAll(filepath.Dir(file), 0o755)
+	os.WriteFile(file, []byte(b.String()), 0o644)
+	solver := o.Res.Solver
+	if solver == "" || solver == "cvc5" {
+		solver = "z3-new"
+	}
+	res, err := exec.Command("timeout", "60", solver, "-T:50", file).CombinedOutput()
+	if err != nil && len(res) == 0 {
+		return out
+	}
+	s := string(res)
+	if !strings.HasPrefix(strings.TrimSpace(s), "sat") {
+		return out // e.g. the array region is not declared in this query: elements stay unknown
+	}
+	vals := regexp.MustCompile(`\)\s+(\(- \d+\)|-?\d+)\)`).FindAllStringSubmatch(s, -1)
+	idx := 0
+	for _, a := range asks {
+		var elems []int64
+		for k := 0; k < a.n && idx < len(vals); k++ {
+			v := vals[idx][1]
+			idx++
+			if strings.HasPrefix(v, "(- ") {
+				v = "-" + strings.TrimSuffix(v[3:], ")")
+			}
+			n, _ := strconv.ParseInt(v, 10, 64)
+			elems = append(elems, n)
+		}
+		out[a.name] = elems
+	}
+	return out
 }
